@@ -6,6 +6,20 @@ import rope.base.simplify
 MINIMAL_LEN_FOR_AS = 5
 
 
+def is_identifier_char(char):
+    """Tell whether `char` can be part of an identifier
+
+    Besides letters, digits and the underscore these are the combining
+    marks and connectors that PEP 3131 allows after the first character
+    of an identifier, as in ``देव``.
+    """
+    return (
+        char.isalnum()
+        or char == "_"
+        or (not char.isascii() and ("a" + char).isidentifier())
+    )
+
+
 def get_name_at(resource, offset):
     source_code = resource.read()
     word_finder = Worder(source_code)
@@ -169,7 +183,7 @@ class _RealFinder:
         return offset
 
     def _is_id_char(self, offset):
-        return self.code[offset].isalnum() or self.code[offset] == "_"
+        return is_identifier_char(self.code[offset])
 
     def _find_string_start(self, offset):
         kind = self.code[offset]
